@@ -196,6 +196,46 @@ def run(ctx, env):
                    ("%s builds an Err itself at %s (a Verify / ErrorIf on what was decoded): with the feature off a flowset whose records cannot be decoded then fails the whole packet" % (pth, [site(s0["span"]) for _, s0 in errs][:2]))
                    if errs else "only propagated errors", site=site(bb.span))
     ctx.floor("R17.5", "v9", "V9 data decoder bodies", n5, 2)
+    # R17.7: the refusal reaches the record level untouched
+    ctx.rule("R17.7", "with the feature off the refusal of an unknown field cannot be turned back into a decoded value: every caller of FieldValue::from_field_type, and every caller of those per-field decoders, only returns the result or propagates it with `?` - none inspects the error and substitutes a value (a raw-bytes fallback for `any field that did not decode` would report unknown fields as data in this build)")
+    FFT17 = "variable_versions::data_number::FieldValue::from_field_type"
+    from .cache import uses_of_local as _uses17
+    level = {FFT17}
+    n7 = 0
+    for depth7 in (1, 2):
+        nxt = set()
+        for pth, bb in sorted(off.bodies.items()):
+            if bb.derived or "parse_le" in pth:
+                continue
+            for blk, t, c in bb.calls():
+                if c is None or not c.local or c.path not in level:
+                    continue
+                n7 += 1
+                root7 = re.sub(r"(::\{closure#\d+\})+$", "", pth)
+                nxt.add(root7)
+                if pth != root7:
+                    nxt.add(pth)
+                if t["dest"]["l"] == 0 and not t["dest"].get("p"):
+                    ctx.ob("R17.7", pth, "refusal-propagated:%s" % c.path.rsplit("::", 1)[1], True, "tail call: the result is returned as it is", site=bb.line(blk))
+                    continue
+                bad7 = []
+                for kind, ub, d in _uses17(bb, t["dest"]["l"]):
+                    if kind == "callarg":
+                        tt, ai = d
+                        fn = tt["func"].get("fn") if tt["func"].get("k") == "const" else None
+                        cc = Callee(fn) if fn else None
+                        if cc is not None and cc.nsyn == "std::ops::Try::branch":
+                            continue
+                        bad7.append("passed to %s" % (cc.npath if cc else "?"))
+                    elif kind == "assign" and d["place"]["l"] == 0 and not d["place"].get("p") and d["rv"]["k"] == "use":
+                        continue
+                    else:
+                        bad7.append("%s at %s" % (kind, bb.line(ub)))
+                ctx.ob("R17.7", pth, "refusal-propagated:%s" % c.path.rsplit("::", 1)[1], not bad7,
+                       ("the result of %s is inspected by its caller (%s): its Err - with the feature off, the refusal of an unknown field - can be replaced by a value" % (c.path.rsplit("::", 1)[1], bad7[0])) if bad7
+                       else "only `?` / returned unchanged", site=bb.line(blk))
+        level = nxt - {FFT17}
+    ctx.floor("R17.7", "crate", "call sites of the per-field decoders", n7, 3)
     # R17.6: with the feature off decodes fail part-way far more often (every unknown field), so storage that survives a
     # failed decode is what makes a later known-only packet differ from the default build
     ctx.rule("R17.6", "the records a decoder reports are made by that decode alone: every element added to the reported collection derives from the input slice, and the collection itself is created by the call - not the drained / taken content of storage kept in the parser object (a reusable buffer that a failed decode leaves half-filled would surface in a later packet); evaluated on the feature-off program: with the feature off decodes fail part-way at every unknown field, so such storage is what makes a later known-only packet differ from the default build (shared with C02 R2.10)")
